@@ -4,6 +4,8 @@
    The history is built along the execution: a goal name(args) reached under the bindings s at nesting
    depth d is the generator d: EStart d (QQuery name (map (den s) args)), one ENext d per answer - the events
    of the rest of the body, at depth d+1, in between -, a last ENext d that returns StopIteration, EClose d;
+   a goal whose loop is left by a cut or by the commit of an if-then-else / a negation is closed while it is
+   suspended: EClose d after its last answer, without the final ENext (alt_sim, simres_close');
    retract(T) the same with QRetract; asserta/assertz(T) is EAssert of the stored copy; retractall(T) is
    ERetractAll.  Unification and the selection of clauses leave no event.  The two machines hold the same
    database and the same identity counter at every point (Rst), and the trace of the run (the atomic updates
